@@ -11,3 +11,5 @@ import FontcProps.C08
 import FontcProps.C10
 import FontcProps.C16
 import FontcProps.C18
+import FontcProps.C15
+import FontcProps.C06
